@@ -58,6 +58,17 @@ CHECKS = {
             'Default context databases and default tolerant parsing; termination decided by the '
             'read-count bound.',
             'DESIGN.md 5 C07'),
+    'C10': ('exploration',
+            'bounded-exhaustive strings differentially against a recursive-descent reference '
+            'parser + Hypothesis documents with an AST-derived per-offset mode map',
+            'All strings <= 6 (quick) / <= 7 (thorough) over the nine math-relevant symbols agree '
+            'with a 60-line reference on accept/reject, formula spans, display types, delimiters '
+            'and per-character modes; thousands of generated documents nesting math / text / '
+            'ensuremath / environments to depth 5 have every node\'s recorded mode equal to the '
+            'mode implied by the generating AST.',
+            'Reference parser and AST mode rules transcribe the documented behaviour (expected '
+            'closing delimiter first, longest delimiter otherwise; argument and body deltas).',
+            'DESIGN.md 5 C10'),
     'C11': ('exploration',
             'bounded-exhaustive token soups x parsing-state configuration catalogue + random long '
             'strings; relational oracle over the whole token sequence (lossless, progress, '
